@@ -94,7 +94,9 @@ class Issue:
         self.confidence = confidence
         if isinstance(text, bytes):
             text = text.decode("utf-8")
-        self.text = text
+        # text quoted from the scanned source may hold lone surrogates (the
+        # literal '\ud800'), which no report encoding can represent
+        self.text = text.encode("utf-8", "backslashreplace").decode("utf-8")
         self.ident = ident
         self.fname = ""
         self.fdata = None
